@@ -435,3 +435,68 @@ Proof.
   - exists D. split; [exact HlD|apply node_decomposition_nil_iff; exact HD].
   - intros k Hk (D' & Hl' & HD'). apply (H3 k Hk). exists D'. split; [exact Hl'|apply node_decomposition_nil_iff; exact HD'].
 Qed.
+
+(* ================================================================================================================= *)
+(* non-vacuity: the chain 1 -> 2 -> 3 with node weights 2, 5, 5.  Without additional starts NO node decomposition exists (every path
+   runs 1-2-3, so nodes 1 and 2 would carry the same total); with the inner node 2 as additional start it has one with 2 paths
+   (2-3 with weight 3, 1-2-3 with weight 2) and none with 1 path. *)
+Definition sxV : list node := [1; 2; 3]%N.
+Definition sxE : list PathEnc.edge := [(1, 2); (2, 3)]%N.
+Definition sxfv (v : node) : Z := if (v =? 1)%N then 2%Z else 5%Z.
+Definition sxD : list (list node * Z) := [([2; 3]%N, 3%Z); ([1; 2; 3]%N, 2%Z)].
+
+Lemma sx_walk_nil p : nwalk sxV sxE [] [] p -> memn 1%N p = true /\ memn 2%N p = true.
+Proof.
+  intros (Hne & HpV & Hw & Hs & He). destruct p as [|a q]; [contradiction|]. cbn [hd] in Hs.
+  assert (Ha : In a sxV) by (apply HpV; left; reflexivity).
+  assert (a = 1%N) by (cbn in Ha; destruct Ha as [<-|[<-|[<-|[]]]]; [reflexivity|discriminate Hs|discriminate Hs]). subst a.
+  split; [apply memn_In; left; reflexivity|]. destruct q as [|b q]; [cbn in He; discriminate He|].
+  assert (Hb : In (1%N, b) sxE) by (apply Hw; left; reflexivity). cbn in Hb. destruct Hb as [Eq|[Eq|[]]]; [|discriminate Eq].
+  injection Eq as <-. apply memn_In. right. left. reflexivity.
+Qed.
+
+Lemma sx_walk_end S p : nwalk sxV sxE S [] p -> memn 3%N p = true.
+Proof.
+  intros (Hne & HpV & _ & _ & He). apply memn_In.
+  assert (Hl : In (last p 0%N) p) by (destruct (exists_last Hne) as (l' & z & ->); rewrite last_last; apply in_or_app; right; left; reflexivity).
+  assert (Hl2 : In (last p 0%N) sxV) by (apply HpV; exact Hl). cbn in Hl2.
+  destruct Hl2 as [Eq|[Eq|[Eq|[]]]]; rewrite <- Eq in He; try discriminate He. rewrite Eq. exact Hl.
+Qed.
+
+Lemma sx_premises :
+  NoDup sxV /\ NoDup sxE /\ (forall e, In e sxE -> In (fst e) sxV /\ In (snd e) sxV) /\
+  (forall u v, In (u, v) sxE -> (posn sxV u < posn sxV v)%nat) /\ incl sxV sxV /\
+  ~ In 100%N (expV sxV) /\ ~ In 101%N (expV sxV) /\ 100%N <> 101%N /\
+  (forall v, In v sxV -> ~ In v [] -> (sxfv v <= 5)%Z) /\
+  (* without additional starts there is no node decomposition at all ... *)
+  (forall D, ~ node_decompositionST sxV sxE [] [] sxfv [] D) /\
+  (* ... with the inner node 2 as additional start there is one with 2 paths and none with 1 *)
+  node_decompositionST sxV sxE [2%N] [] sxfv [] sxD /\ (length sxD <= length (expE sxV sxE))%nat /\
+  ~ (exists D, length D = 1%nat /\ node_decompositionST sxV sxE [2%N] [] sxfv [] D).
+Proof.
+  split; [repeat constructor; cbn; intuition discriminate|].
+  split; [repeat constructor; cbn; intuition discriminate|].
+  split; [intros e He; cbn in He; destruct He as [<-|[<-|[]]]; cbn; tauto|].
+  split; [intros u v He; cbn in He; destruct He as [Eq|[Eq|[]]]; injection Eq as <- <-; cbn; lia|].
+  split; [apply incl_refl|].
+  split; [cbn; intuition discriminate|]. split; [cbn; intuition discriminate|]. split; [discriminate|].
+  split; [intros v Hv _; cbn in Hv; destruct Hv as [<-|[<-|[<-|[]]]]; cbn; lia|].
+  split; [|split; [|split; [cbn; lia|]]].
+  - intros D [HF Heq].
+    assert (X : node_explained D 1%N = node_explained D 2%N).
+    { clear Heq. unfold node_explained. induction D as [|[p w] D IH]; [reflexivity|]. inversion HF as [|? ? [Hp _] HF']; subst.
+      cbn [Peel.sumL fold_right fst snd]. destruct (sx_walk_nil p Hp) as [-> ->]. f_equal. exact (IH HF'). }
+    exfalso. pose proof (Heq 1%N ltac:(cbn; tauto) ltac:(intros [])) as H1. pose proof (Heq 2%N ltac:(cbn; tauto) ltac:(intros [])) as H2.
+    rewrite X in H1. rewrite H1 in H2. discriminate H2.
+  - split.
+    + assert (R : forall p, p = [2; 3]%N \/ p = [1; 2; 3]%N -> nwalk sxV sxE [2%N] [] p).
+      { intros p Hp. unfold nwalk. destruct Hp as [-> | ->];
+          (split; [discriminate|]); (split; [intros x Hx; cbn in Hx |- *; tauto|]); (split; [intros e He; cbn in He |- *; tauto|]); split; reflexivity. }
+      constructor; [split; [apply R; left; reflexivity|cbn; lia]|]. constructor; [split; [apply R; right; reflexivity|cbn; lia]|]. constructor.
+    + intros v Hv _. cbn in Hv. destruct Hv as [<-|[<-|[<-|[]]]]; reflexivity.
+  - intros (D & Hlen & HF & Heq). destruct D as [|[p w] [|]]; try discriminate Hlen.
+    inversion HF as [|? ? [Hp _] _]; subst. cbn [fst] in Hp.
+    pose proof (Heq 1%N ltac:(cbn; tauto) ltac:(intros [])) as H1. pose proof (Heq 3%N ltac:(cbn; tauto) ltac:(intros [])) as H3.
+    unfold node_explained in H1, H3. cbn [Peel.sumL fold_right fst snd] in H1, H3. rewrite (sx_walk_end _ p Hp) in H3.
+    destruct (memn 1 p); cbn [zind sxfv N.eqb Pos.eqb] in H1, H3; lia.
+Qed.
